@@ -21,7 +21,7 @@ ASSUMPTIONS = [
     "wingbox models use non-flat twist (documented arccos kink at exactly zero twist)",
     "Richardson oracle with error estimate; OpenMDAO/NumPy/SciPy trusted",
 ]
-BOUND = {"quick": "11 topologies x 1-3 option sets x 1 design point", "thorough": "adds option sets, off-design point, LinearBlockGS/Krylov on every aerostructural state"}
+BOUND = {"quick": "11 topologies x 1-3 option sets x 1 design point; left and right half meshes, nx 2-3", "thorough": "adds option sets, off-design point, LinearBlockGS/Krylov on every aerostructural state"}
 TOL_FD = 2e-6
 TOL_MODE = 1e-8
 TOL_SOLVER = 1e-6
@@ -49,6 +49,11 @@ def states(tier, seed):
         if tier == "quick" and (relief != pm):
             continue
         st.append(dict(topo="struct", model=model, sym=sym, relief=relief, pmass=pm, pt=pt, fam=fam))
+    # mesh-shape axis: right-half symmetric meshes (root node first) and nx = 3 (an interior chordwise row of mesh nodes)
+    for model, relief in itertools.product(["tube", "wingbox"], [False, True]):
+        if tier == "quick" and (model == "tube") != relief:
+            continue
+        st.append(dict(topo="struct", model=model, sym=True, relief=relief, pmass=relief, pt="base", fam=fam, side="right", nx=3))
     # --- aerostruct
     as_opts = [
         dict(model="tube", sym=True, relief=False, fuel=False, pmass=False, comp=False, visc=True, wave=False, two=False),
@@ -69,6 +74,10 @@ def states(tier, seed):
             if tier == "quick" and lin != "direct" and (o["two"] or o["model"] == "wingbox" and not o["sym"]):
                 continue
             st.append(dict(topo="as", lin=lin, pt=pt, fam=fam, npoints=1, **o))
+    for lin in lins:
+        st.append(dict(topo="as", lin=lin, pt="base", fam=fam, npoints=1, side="right", nx=3, model="tube", sym=True, relief=True, fuel=False, pmass=True, comp=False, visc=True, wave=False, two=False))
+        if tier == "thorough":
+            st.append(dict(topo="as", lin=lin, pt="base", fam=fam, npoints=1, side="right", nx=3, model="wingbox", sym=True, relief=True, fuel=True, pmass=False, comp=False, visc=True, wave=False, two=False))
     st.append(dict(topo="as", lin="direct", pt="base", fam=fam, npoints=2, model="tube", sym=True, relief=True, fuel=False, pmass=False, comp=False, visc=True, wave=False, two=False))
     if tier == "thorough":
         st.append(dict(topo="as", lin="direct", pt="off", fam=fam, npoints=2, model="wingbox", sym=True, relief=True, fuel=False, pmass=False, comp=False, visc=True, wave=False, two=False))
@@ -123,12 +132,13 @@ def struct_model(s, mode):
     sym = s["sym"]
     ny = 4 if sym else 5
     off = s["pt"] == "off"
-    m = gen.make_mesh("twdi", 2, ny, "left" if sym else "full", fam, asym=not sym, span=10.0, chord=1.6)
+    side = s.get("side", "left")
+    m = gen.make_mesh("twdi", s.get("nx", 2), ny, side if sym else "full", fam, asym=not sym, span=10.0, chord=1.6)
     kw = dict(struct_weight_relief=s["relief"], twist_cp=np.array([2.0, 3.0, 1.0]), t_over_c_cp=np.array([0.12, 0.14]))
     pm = None
     if s["pmass"]:
         kw["n_point_masses"] = 1
-        pm = dict(point_masses=[600.0], engine_thrusts=[5.0e3], point_mass_locations=[[1.1, -2.3, -0.35]])
+        pm = dict(point_masses=[600.0], engine_thrusts=[5.0e3], point_mass_locations=[[1.1, 2.3 if side == "right" else -2.3, -0.35]])
     if s["model"] == "tube":
         kw["thickness_cp"] = np.array([0.015, 0.02, 0.03]) * (1.3 if off else 1.0)
     else:
@@ -156,15 +166,16 @@ def as_model(s, mode):
     if s.get("ground"):
         kw["groundplane"] = True
     pm = None
+    side = s.get("side", "left")
     if s["pmass"]:
         kw["n_point_masses"] = 1
-        pm = dict(point_masses=[600.0], engine_thrusts=[5.0e3], point_mass_locations=[[1.1, -2.3, -0.35]])
+        pm = dict(point_masses=[600.0], engine_thrusts=[5.0e3], point_mass_locations=[[1.1, 2.3 if side == "right" else -2.3, -0.35]])
     if s["model"] == "tube":
         kw["thickness_cp"] = np.array([0.015, 0.02, 0.03]) * (1.3 if off else 1.0)
     else:
         kw["spar_thickness_cp"] = np.array([0.004, 0.006, 0.008]) * (1.3 if off else 1.0)
         kw["skin_thickness_cp"] = np.array([0.008, 0.012, 0.016])
-    m = gen.make_mesh("twdi", 2, ny, "left" if sym else "full", fam, asym=not sym, span=10.0, chord=1.6)
+    m = gen.make_mesh("twdi", s.get("nx", 2), ny, side if sym else "full", fam, asym=not sym, span=10.0, chord=1.6)
     surfs = [builders.struct_surface("wing", m, sym, s["model"], **kw)]
     if s["two"]:
         m2 = gen.make_mesh("swept", 2, 3, "left" if sym else "full", fam, asym=not sym, span=4.0, chord=0.9, offset=[6.0, 0.0, 0.8])
